@@ -101,6 +101,11 @@ func init() {
 		path := strOf(a[0])
 		db := st.bolt[path]
 		if db == nil {
+			if f, ok := st.files[path]; ok && len(f) > 0 {
+				// a non-empty file that no bbolt ever completed: bbolt refuses it
+				m.ev("bolt-open", path, 0, 0, false, "invalid database")
+				return tuple{(*value)(nil), m.mkError("invalid database")}
+			}
 			db = &boltDB{path: path, buckets: map[string]map[string][]value{}}
 			st.bolt[path] = db
 		}
